@@ -14,8 +14,10 @@ pub enum Ty {
     Null,
     Octets,
     Utf8,
-    /// anonymous ENUMERATED { a, b }
+    /// anonymous ENUMERATED { a, b-c }
     Enum,
+    /// any other built-in type, by its ASN.1 spelling (see `builtin_rust`)
+    Builtin(String),
     /// reference to helper type T ::= SEQUENCE { x BOOLEAN }
     Ref,
     /// reference to the enclosing top-level type (recursion)
@@ -28,6 +30,25 @@ pub enum Ty {
     SeqOf(Box<Ty>),
     SetOf(Box<Ty>),
 }
+
+/// the other built-in types: (ASN.1 spelling, kind label, rasn type of the bindings, JER / TypeScript type)
+pub const BUILTINS: [(&str, &str, &str, &str); 15] = [
+    ("BIT STRING", "BITSTRING", "BitString", "bits"),
+    ("OBJECT IDENTIFIER", "OID", "ObjectIdentifier", "string"),
+    ("RELATIVE-OID", "RELATIVE-OID", "ObjectIdentifier", "string"),
+    ("UTCTime", "UTCTime", "UtcTime", "string"),
+    ("GeneralizedTime", "GeneralizedTime", "GeneralizedTime", "string"),
+    ("IA5String", "IA5String", "Ia5String", "string"),
+    ("NumericString", "NumericString", "NumericString", "string"),
+    ("PrintableString", "PrintableString", "PrintableString", "string"),
+    ("VisibleString", "VisibleString", "VisibleString", "string"),
+    ("BMPString", "BMPString", "BmpString", "string"),
+    ("UniversalString", "UniversalString", "UniversalString", "string"),
+    ("TeletexString", "TeletexString", "TeletexString", "string"),
+    ("T61String", "T61String", "TeletexString", "string"),
+    ("GraphicString", "GraphicString", "GraphicString", "string"),
+    ("GeneralString", "GeneralString", "GeneralString", "string"),
+];
 
 #[derive(Clone, Serialize, Deserialize, PartialEq, Debug)]
 pub enum Opt {
@@ -68,6 +89,7 @@ impl Ty {
             Ty::Octets => "OCTETSTRING",
             Ty::Utf8 => "UTF8String",
             Ty::Enum => "anon-ENUMERATED",
+            Ty::Builtin(b) => BUILTINS.iter().find(|x| x.0 == b).map(|x| x.1).unwrap_or("builtin-unknown"),
             Ty::Ref => "ref",
             Ty::SelfRef => "selfref",
             Ty::Named(_) => "named-ref",
@@ -185,6 +207,7 @@ pub fn ty_text(t: &Ty, top: &str) -> String {
         Ty::Octets => "OCTET STRING".into(),
         Ty::Utf8 => "UTF8String".into(),
         Ty::Enum => "ENUMERATED { a, b-c }".into(),
+        Ty::Builtin(b) => b.clone(),
         Ty::Ref => "T".into(),
         Ty::SelfRef => top.into(),
         Ty::Named(n) => n.clone(),
@@ -299,7 +322,8 @@ impl<'a> Cmp<'a> {
             }
             return; // Box placement is judged on the whole reference graph in finish()
         }
-        if let Some(want) = prim(exp.kind()) {
+        let builtin_want = if let Ty::Builtin(b) = exp { BUILTINS.iter().find(|x| x.0 == b).map(|x| x.2) } else { None };
+        if let Some(want) = prim(exp.kind()).or(builtin_want) {
             // an OF element of built-in type may be rendered as a delegate newtype `Anonymous…(pub <prim>)`
             if _in_of && got_unboxed != want {
                 if let Some(Item::Struct { tuple: Some(tu), attrs, .. }) = self.m.find(got_unboxed) {
